@@ -47,7 +47,30 @@ def run(tier, scratch, t0, replay=None):
     quick = tier == "quick"
     rng = K.rng_for("C18")
     files = [p for p in K.corpus_files() if os.path.getsize(p) < 5000 or "dropbox" in p]
-    files = rng.sample(files, min(len(files), 120 if quick else 1000))
+    files = rng.sample(files, min(len(files), 110 if quick else 1000))
+    # fresh files of every reference version (the corpus stops at 3.12): programs with loops / async / try so that the
+    # version-specific jump and cache tables are exercised one after the other
+    from .. import diffpipe as D
+
+    batches = D.build_batches(scratch, sorted(K.available_interps()), tier, "C18", n_stdlib=0, n_gen=1 if quick else 6, batch=40,
+                              with_corpus=False, gen_snippets=2,
+                              must_templates=["t_control", "t_async", "t_comp", "t_long_loop"])
+    for b in batches:
+        tf, err = K.run_truth(b["v"], "compile", {"items": b["items"], "sections": [], "mode": "compile"}, b["workdir"], b["tag"])
+        if tf is None:
+            res.inconclusive.append("compile %s: %s" % (K.vstr(b["v"]), err))
+            continue
+        files += [it["pyc"] for it in b["items"] if os.path.exists(it["pyc"]) and os.path.getsize(it["pyc"]) < 12000]
+    # corrupt variants of the dropbox-encrypted files (a failed load must leave no trace either)
+    cdir = scratch.sub("corrupt")
+    for p in [f for f in K.corpus_files() if "dropbox" in f][:4]:
+        data = open(p, "rb").read()
+        for j, mut in enumerate((data[:len(data) // 2], data[:40] + bytes([data[40] ^ 0xFF]) + data[41:],
+                                 data[:200] + b"\x00" * 8 + data[208:])):
+            q = os.path.join(cdir, "%s.corrupt%d.pyc" % (os.path.basename(p)[:-4], j))
+            with open(q, "wb") as f:
+                f.write(mut)
+            files.append(q)
     n = 480 if quick else 20000
     hists = []
     for i in range(n):
